@@ -248,6 +248,27 @@ def points(ctx, lim):
                     order = I.getattr(obj, 'order')
                     rep.check(order == pole + 2, 'R-RESIDUE', 'limits.Residue.__init__', lim.relpath,
                               {'pole_order': pole, 'default_order': order}, 'order = pole_order + 2', label, key='residue order')
+                # the same object used again at another point with other arguments: the points are around the new z0, the
+                # new arguments are forwarded (nothing remembered from the first call)
+                if pole in (None, 2):
+                    z1 = Poly.sym('z1')
+                    del seen[:]
+                    I.on_call = on_call
+                    try:
+                        I.getattr(obj, 'limit')(z1, Poly.sym('arg1'), p=Poly.sym('kwq'))
+                        offs2 = [Poly.of(z) - z1 for z, a, k in seen]
+                        problems2 = []
+                        if len(offs2) != 4 or any(not (o - w).is_zero() for o, w in zip(offs2, want)):
+                            problems2.append('evaluation offsets from the new point %s, expected %s' % ([repr(o)[:40] for o in offs2], [repr(w) for w in want]))
+                        if any(a != (Poly.sym('arg1'),) or k != {'p': Poly.sym('kwq')} for z, a, k in seen):
+                            problems2.append('the arguments of the second call are not the ones forwarded')
+                    except InterpRaise as exc:
+                        problems2 = ['raises %s: %s' % (exc.exc_name, exc.msg[:80])]
+                    finally:
+                        I.on_call = None
+                    rep.check(not problems2, 'R-SIGN', 'limits.%s._lim' % cls, lim.relpath, {'problems': problems2[:2]},
+                              'a second call evaluates around its own point with its own arguments', label + '/second call at another point',
+                              key='sign %s' % cls)
                 if method == 'above' and pole in (None, 1):
                     rich = obj.attrs.get('richardson')
                     ok = rich is not None and repr(I.getattr(rich, 'step_ratio')) == repr(I.getattr(gen, 'step_ratio')) and \
